@@ -12,7 +12,9 @@
 //  4. totality: every call is guarded, every batch runs in a child process
 //     under an address-space limit; the case in flight is kept in a shared
 //     mapping, so a fatal death (out of memory, runaway loop) yields the exact
-//     (type, input) and the shard is resumed with that type quarantined,
+//     (type, input) and the shard is resumed with that type quarantined; a call
+//     that does not come back is judged by CPU time, never by the wall clock,
+//     and only after the case hung again when run alone (hang.go),
 //  5. suffix independence,
 //  6. allocation bound (TotalAlloc delta, single-threaded children),
 //  7. encoder result lifetime: results held across later encoder calls stay
@@ -42,6 +44,7 @@ import (
 	"strconv"
 	"strings"
 	"sync"
+	"sync/atomic"
 	"syscall"
 	"time"
 
@@ -60,6 +63,7 @@ const (
 
 func main() {
 	r := mon.Start("C08")
+	initHang(r)
 	if args, ok := mon.IsChildInvocation(); ok {
 		child(r, args)
 		return
@@ -124,6 +128,7 @@ func main() {
 			"nil pointers to structs/arrays without the rlp:\"nil\" tag are outside the round-trip clause (their documented encoding, the empty list/string, does not decode back)",
 			"rlp.RawValue / Stream.Raw: opaque pass-through (the value is the encoding, re-encode identity holds trivially): only the size form of the headers the decoder reads is held to the grammar; a 0x81-prefixed byte < 0x80 taken verbatim is counted in observed.info_raw_value_prefixed_single_byte_accepted, not reported",
 			fmt.Sprintf("allocation bound: TotalAlloc delta of one DecodeBytes <= %d*len(input)+%d bytes", allocPerByte, allocSlack),
+			fmt.Sprintf("a call \"does not return\" when the case in flight (one input <= 1 MiB) has used more than %v of process CPU time without completing, in the shard child and again when re-run alone in a fresh process (observed.max_cpu_ms_one_case_in_flight* = largest value sampled on cases that did complete); a wall-clock watchdog alone never yields a violation", hangCPU),
 			"rlp.Decode on a reader of unknown length is not fed inputs claiming between 16 MiB and 2^63 bytes (it allocates what is claimed)",
 		},
 		MustObserve: []string{"value_roundtrips", "accepted", "rejected_grammatical", "rejected_ungrammatical", "reencode_checks", "suffix_checks",
@@ -175,6 +180,9 @@ var curUnit uint64
 
 // mark records the execution about to start.
 func mark(tg *target, mode byte, b []byte, idx int) {
+	atomic.AddUint64(&markSeq, 1) // hang guard: another case is in flight now
+	atomic.StoreInt32(&curStep, stNone)
+	atomic.StoreInt32(&curMode, int32(mode))
 	if prog == nil {
 		return
 	}
@@ -219,6 +227,7 @@ func readProg(dir string) (flushed uint64, c *Case) {
 // last flushed unit with the offending type quarantined.
 func supervise(r *mon.Run, mode string, shard int, to time.Duration) {
 	start := uint64(0)
+	unconfirmed := 0
 	quarMu.Lock()
 	skip := append([]string{}, quarantined...) // types already seen to kill a child are not run again in later shards
 	quarMu.Unlock()
@@ -237,9 +246,45 @@ func supervise(r *mon.Run, mode string, shard int, to time.Duration) {
 			return
 		}
 		flushed, c := readProg(dir)
-		if res.TimedOut {
-			r.Inconclusive("child %s hit the %v watchdog; case in flight: %+v", res.Spec.Label, to, c)
-			return
+		typ := ""
+		if c != nil {
+			typ = c.Type
+		}
+		if typ == "" && c != nil && c.Mode == "untyped" {
+			typ = untypedName
+		}
+		fired, _ := hangFired(res)
+		if res.TimedOut || fired {
+			// the child did not finish: its own CPU-time hang guard fired, or the wall-clock watchdog
+			// here did. Either way only the case in flight, re-run alone, can turn that into a verdict.
+			confirmed, step, cres := confirmHang(r, c, to)
+			switch {
+			case confirmed:
+				reportHang(r, c, step, cres)
+				if typ == "" || attempt >= maxRestarts {
+					r.Inconclusive("shard %s-%d abandoned after a hang that cannot be quarantined (type %q, attempt %d): units >= %d unexplored", mode, shard, typ, attempt, flushed)
+					return
+				}
+				skip = append(skip, typ)
+				quarMu.Lock()
+				quarantined = appendUnique(quarantined, typ)
+				quarMu.Unlock()
+				start = flushed
+				continue
+			case res.TimedOut:
+				r.Inconclusive("child %s hit the %v watchdog; the case in flight, run alone, did not exhaust the CPU budget of the hang guard (hang-confirm exit %d, timed out %v); case in flight: %+v", res.Spec.Label, to, cres.Exit, cres.TimedOut, c)
+				return
+			default:
+				unconfirmed++
+				r.Count("hang_guard_firings_not_confirmed", 1)
+				if unconfirmed >= 2 {
+					r.Inconclusive("child %s: hang guard fired %d times in this shard on cases that complete when run alone; last case in flight: %+v; units >= %d unexplored", res.Spec.Label, unconfirmed, c, flushed)
+					return
+				}
+				r.Note("child %s: hang guard fired but the case in flight completes when run alone (hang-confirm exit %d); shard resumed at unit %d. Case: %+v", res.Spec.Label, cres.Exit, flushed, c)
+				start = flushed
+				continue
+			}
 		}
 		if res.Exit == 2 && c == nil {
 			r.Inconclusive("child %s exited 2 before running anything: %s", res.Spec.Label, res.LogTail)
@@ -247,17 +292,10 @@ func supervise(r *mon.Run, mode string, shard int, to time.Duration) {
 		}
 		logHT := mon.HeadTail(res.LogFile, 3500)
 		site := deathSite(res.LogFile, c)
-		typ := ""
-		if c != nil {
-			typ = c.Type
-		}
-		r.Violation("C08:fatal:type="+typ+":"+site,
-			fmt.Sprintf("child process died with exit %d (%s) while executing mode=%s type=%s input=%x", res.Exit, site, modeOf(c), typ, clipCase(c)),
+		r.Violation("C08:fatal:type="+caseType(c)+":"+site,
+			fmt.Sprintf("child process died with exit %d (%s) while executing mode=%s type=%s input=%x", res.Exit, site, modeOf(c), caseType(c), clipCase(c)),
 			map[string]interface{}{"case": c, "log": logHT})
 		r.Count("child_deaths", 1)
-		if typ == "" && c != nil && c.Mode == "untyped" {
-			typ = untypedName
-		}
 		if typ == "" || attempt >= maxRestarts {
 			r.Inconclusive("shard %s-%d abandoned after a death that cannot be quarantined (type %q, attempt %d): units >= %d unexplored", mode, shard, typ, attempt, flushed)
 			return
@@ -350,11 +388,14 @@ var (
 func unitDone(r *mon.Run) {
 	curUnit++
 	if curUnit%flushEvery == 0 {
+		atomic.AddUint64(&markSeq, 1) // the flush is harness work, not part of the case before it
+		setStep(stFlush)
 		flushCounts(r)
 		r.FlushChild()
 		if prog != nil {
 			binary.LittleEndian.PutUint64(prog[0:], curUnit)
 		}
+		atomic.AddUint64(&markSeq, 1)
 	}
 }
 
@@ -385,6 +426,7 @@ func child(r *mon.Run, args []string) {
 			}
 		}
 	}()
+	go hangGuard(r) // a call that does not come back: see hang.go
 	for i, tg := range targets {
 		tg.idx = i
 	}
@@ -408,6 +450,7 @@ func child(r *mon.Run, args []string) {
 			os.Exit(2)
 		}
 		r.CaseBegin(cb)
+		flushOnHang = true
 		runCase(r, c)
 		flushCounts(r)
 		r.Finish(mon.Coverage{})
@@ -738,6 +781,7 @@ func replay(r *mon.Run, path string) {
 	if v.Tier == "thorough" || v.Tier == "quick" {
 		r.Tier = v.Tier
 	}
+	initHang(r)
 	var w struct {
 		Case *Case `json:"case"` // Guard / supervise witness
 	}
@@ -753,7 +797,12 @@ func replay(r *mon.Run, path string) {
 	cf := filepath.Join(mon.WorkDir(), "replay-case.json")
 	ioutil.WriteFile(cf, cb, 0644)
 	res := r.RunChild(mon.ChildSpec{Label: "replay", Args: []string{"case", cf}, Timeout: 10 * time.Minute})
-	if res.Exit != 0 && !res.TimedOut { // same signature as the supervisor gives a death
+	if fired, step := hangFired(res); fired { // same signature as the supervisor gives a confirmed hang
+		if _, err := os.Stat(res.Partial); err == nil {
+			r.Merge(res.Partial)
+		}
+		reportHang(r, &c, step, res)
+	} else if res.Exit != 0 && !res.TimedOut { // same signature as the supervisor gives a death
 		if _, err := os.Stat(res.Partial); err == nil {
 			r.Merge(res.Partial)
 		}
